@@ -35,12 +35,19 @@ fn programs(args: &Args, report: &mut Report) -> Vec<Vec<Stat>> {
         }
     }
     report.add("family_programs_run", out.len() as u64);
+    let bound = if args.thorough() { 3 } else { 2 };
+    let en = ast::Enum::new(bound);
+    for n in 1..=bound {
+        out.extend(en.programs(n).iter().cloned());
+        report.add(&format!("enumerated_size_{n}"), en.programs(n).len() as u64);
+    }
+    report.extra.insert("exhaustive_node_bound".into(), json!(bound));
     if args.thorough() {
         report.extra.insert("exhaustive".into(), json!(true));
     }
     let (n, max_nodes) = if args.thorough() { (6_000, 30) } else { (500, 20) };
     for i in 0..n {
-        let mut g = Gen { rng: &mut rng, names: 3 };
+        let mut g = Gen { rng: &mut rng, names: 3, vararg: true };
         out.push(g.program(3 + (i % (max_nodes - 2))));
     }
     out
@@ -124,7 +131,10 @@ pub fn run(args: &Args, report: &mut Report) {
     for (i, r) in rendered.iter().enumerate() {
         let first = reqs.len();
         reqs.push(format!("scope.ref {}", encs[i]));
-        let toks: Vec<usize> = (0..r.toks.len()).filter(|k| matches!(r.toks[*k].2, TokKind::Decl | TokKind::Use)).collect();
+        // every name token; `...` is not a name token (prepareRename refuses it)
+        let toks: Vec<usize> = (0..r.toks.len())
+            .filter(|k| matches!(r.toks[*k].2, TokKind::Decl | TokKind::Use) && r.toks[*k].3 != "...")
+            .collect();
         for k in &toks {
             reqs.push(format!("scope.rename {} {}", encs[i], r.toks[*k].0));
             reqs.push(format!("scope.refs {} {}", encs[i], r.toks[*k].0));
@@ -160,6 +170,12 @@ pub fn run(args: &Args, report: &mut Report) {
                 _ => res.iter().find(|x| x.0 == *pos).and_then(|x| x.1),
             };
             report.evaluations += 1;
+            // the implicit `self` of a method (declared at the `:`) has no name token: rename does not apply
+            let implicit_self = target.is_some_and(|t| r.toks[(t - 2) / 2].2 == TokKind::Other);
+            let target = if implicit_self { None } else { target };
+            if implicit_self {
+                report.count("token_use_of_implicit_self");
+            }
             let expected: Option<BTreeSet<usize>> = target.map(|t| {
                 let mut e: BTreeSet<usize> = res.iter().filter(|x| x.1 == Some(t)).map(|x| x.0).collect();
                 e.insert(t);
@@ -204,16 +220,15 @@ pub fn run(args: &Args, report: &mut Report) {
             let Some(expected) = expected else {
                 // a global name: outside the property (rename of globals goes through the global index)
                 if model_rename.is_some() {
-                    report.mismatch(json!({"input": input, "what": "model resolves the token to a local declaration, the reference resolver to a global"}));
+                    report.mismatch(json!({"input": input, "what": "model offers a rename where the reference resolver sees a global or the implicit self"}));
+                }
+                if implicit_self && edit.as_ref().is_some_and(|e| e.changes.iter().flatten().any(|(_, es)| !es.is_empty())) {
+                    report.oracle_failure(json!({"input": input, "class": class, "what": "rename on the implicit self of a method produces edits"}));
                 }
                 continue;
             };
             report.traces_validated += 1;
-            // `references` resolves its token with SemanticDeclLevel::Trace: for `local g = f` with a
-            // function-valued `f` it answers for `f`. Known finding; that tracing is not modelled.
-            let alias = target.is_some_and(|t| r.init_is_name.contains(&t));
-            let class = if alias { Some("references-target-initialised-by-bare-name") } else { class };
-            if alias {
+            if target.is_some_and(|t| r.init_is_name.contains(&t)) {
                 report.count("target_initialised_by_bare_name");
             }
             // ---- rename edits
@@ -277,12 +292,10 @@ pub fn run(args: &Args, report: &mut Report) {
             }
             ref_pos.sort();
             let exp_vec: Vec<usize> = expected.iter().copied().collect();
-            let other_problems = problems.len();
             if refs.is_some() && ref_pos != exp_vec {
                 problems.push(format!("references returns tokens {ref_pos:?}, the declaration and its uses are {exp_vec:?}"));
             }
-            // the known finding covers only a deviating references set on such a token, nothing else
-            let class = if alias && other_problems == 0 { class } else { ast::class_of(p) };
+
             // ---- apply the edits with the fresh name, re-analyse, compare the resolution structure
             if problems.is_empty() {
                 let mut text = r.text.clone();
@@ -337,9 +350,7 @@ pub fn run(args: &Args, report: &mut Report) {
                 report.mismatch(json!({"input": input, "what": "rename edit set differs from the model (declaration ∪ recorded references)",
                     "model": model_rename, "impl": real_edits}));
             }
-            if alias {
-                report.count("references_tie_skipped_alias_tracing_not_modelled");
-            } else if refs.is_some() && model_refs.as_ref() != Some(&ref_pos) {
+            if refs.is_some() && model_refs.as_ref() != Some(&ref_pos) {
                 report.mismatch(json!({"input": input, "what": "references differ from the model", "model": model_refs, "impl": ref_pos}));
             }
             if refs.is_none() {
